@@ -39,3 +39,44 @@ Proof. exact render_eqv. Qed.
 
 Example C15_nonvacuous_read_only := Examples.read_only_instance.
 Example C15_nonvacuous_flush_clean := Examples.flush_clean_instance.
+
+(** AT BYTE LEVEL (Io.v: an executable model of the I/O each call performs - every seek, read and
+    write of the crate's VarFile layer on three flat files, compared event by event with the real
+    crate through the fine io-trace hook by this check).  [ro_step x x']: the three byte strings
+    and chunk sizes are unchanged and every logged event is a read or a seek to a position at or
+    before the end of its file - no write, no set_len, no seek that would extend a file.  From
+    files equal to [render s] of a well-formed state, each read-only call at byte level returns
+    exactly the record-level result and is such a step. *)
+From Aby Require Import Iter Stats Spec Refine Load Load_all Io Io_base Io_htx Io_proofs.
+
+Theorem C15_byte_level_get : forall s himg kimg vimg (m : Io.mp),
+  wf_state s -> fits64 s -> render s = Ok (himg, kimg, vimg) ->
+  Io.m_kt m = kt s -> Io.m_n m = nb (hx s) -> Io.images m = (himg, kimg, vimg) ->
+  forall key r, get s key = Ok r ->
+  exists m', Io.get m key = Ok (r, m') /\ ro_step (Io.m_st m) (Io.m_st m') /\ Io.images m' = Io.images m.
+Proof. exact Io_d_get. Qed.
+
+Theorem C15_byte_level_includes_key : forall s himg kimg vimg (m : Io.mp),
+  wf_state s -> fits64 s -> render s = Ok (himg, kimg, vimg) ->
+  Io.m_kt m = kt s -> Io.m_n m = nb (hx s) -> Io.images m = (himg, kimg, vimg) ->
+  forall key r, has s key = Ok r ->
+  exists m', Io.has m key = Ok (r, m') /\ ro_step (Io.m_st m) (Io.m_st m') /\ Io.images m' = Io.images m.
+Proof. exact Io_d_has. Qed.
+
+Theorem C15_byte_level_len : forall s himg kimg vimg (m : Io.mp),
+  wf_state s -> fits64 s -> render s = Ok (himg, kimg, vimg) -> Io.images m = (himg, kimg, vimg) ->
+  exists m', Io.len m = Ok (len s, m') /\ ro_step (Io.m_st m) (Io.m_st m') /\ Io.images m' = Io.images m.
+Proof. exact Io_d_len. Qed.
+
+Theorem C15_byte_level_traversal : forall s himg kimg vimg (m : Io.mp),
+  wf_state s -> fits64 s -> render s = Ok (himg, kimg, vimg) -> Io.images m = (himg, kimg, vimg) ->
+  forall items h ex, iter_run s = Ok (items, h, ex) ->
+  exists m', Io.iter_run m = Ok (items, h, ex, m') /\ ro_step (Io.m_st m) (Io.m_st m') /\ Io.images m' = Io.images m.
+Proof. exact Io_d_iter_run. Qed.
+
+Theorem C15_byte_level_statistics : forall s himg kimg vimg (m : Io.mp),
+  wf_state s -> fits64 s -> render s = Ok (himg, kimg, vimg) ->
+  Io.m_n m = nb (hx s) -> Io.images m = (himg, kimg, vimg) ->
+  forall r, stats_of s = Ok r ->
+  exists m', Io.stats_of m = Ok (r, m') /\ ro_step (Io.m_st m) (Io.m_st m') /\ Io.images m' = Io.images m.
+Proof. exact Io_d_stats. Qed.
